@@ -4,6 +4,9 @@ package ui
 
 import (
 	"io"
+	"os"
+	"path/filepath"
+	"time"
 	"servitor/config"
 	"servitor/mime"
 	"servitor/verifrt"
@@ -122,5 +125,130 @@ func VerifC20Hook() {
 	verifrt.Assert(cfgSame, "configured-hook-is-not-modified")
 	verifrt.Observe("args", gotArgs)
 	verifrt.Observe("stdin", gotStdin)
+	verifrt.Reach("end")
+}
+
+// nativeDumpHookNamed: a dump script whose file name keeps the letters,
+// digits and spaces of the configured program name, so that a program path
+// with a space in it really has one.
+func nativeDumpHookNamed(prog string) string {
+	dir, err := os.MkdirTemp("", "verif-hook-")
+	if err != nil {
+		panic(err)
+	}
+	name := ""
+	for _, r := range prog {
+		switch {
+		case r >= 'a' && r <= 'z', r >= 'A' && r <= 'Z', r >= '0' && r <= '9', r == ' ':
+			name += string(r)
+		default:
+			name += "_"
+		}
+	}
+	p := filepath.Join(dir, "x"+name+"x")
+	if err := os.WriteFile(p, []byte(dumpScript), 0o755); err != nil {
+		panic(err)
+	}
+	return p
+}
+
+// VerifC20Configured: the hook as it is *configured* - through the
+// configuration's own validation and post-processing - is what runs: same
+// program, same arguments, substituted argument-wise.
+func VerifC20Configured() {
+	K := 1 + verifrt.Choice("hooklen", 3)
+	configured := make([]string, K)
+	prog := verifrt.Bytes("prog", 1+verifrt.Choice("prog-len", 3))
+	for i := 0; i < len(prog); i++ {
+		verifrt.Assume(verifrt.All(prog[i] >= 0x20, prog[i] < 0x7f, prog[i] != '/'))
+	}
+	symbolic := verifrt.Symbolic()
+	configured[0] = prog
+	if !symbolic {
+		configured[0] = nativeDumpHookNamed(prog)
+	}
+	canned := []string{"%url", "-f", "two words", "%mimetype", " ", "--title=%url"}
+	for i := 1; i < K; i++ {
+		configured[i] = canned[verifrt.Choice("arg", len(canned))]
+	}
+	link := "https://l.example/a b?c=%url"
+	mt := &mime.MediaType{Essence: "image/png", Supertype: "image", Subtype: "png"}
+
+	cfg := &config.Config{}
+	cfg.Feeds = map[string][]string{}
+	cfg.Style.Colors.Primary = "#A4f59b"
+	cfg.Style.Colors.Error = "#9c3535"
+	cfg.Style.Colors.Highlight = "#0d7d00"
+	cfg.Style.Colors.Code = "#4b4b4b"
+	cfg.Network.Context = 1
+	cfg.Network.Timeout = 10
+	cfg.Network.CacheSize = 8
+	cfg.Media.Hook = append([]string{}, configured...)
+	if err := config.VerifPostprocess(cfg); err != nil {
+		// rejected at start-up (a blank program name): nothing runs
+		verifrt.Observe("accepted", false)
+		verifrt.Reach("end")
+		return
+	}
+	verifrt.Observe("accepted", true)
+	saved := config.Parsed
+	config.Parsed = cfg
+	defer func() { config.Parsed = saved }()
+
+	log := &frameLog{}
+	s := newTestState(20, 4, log)
+	s.h.Add(emptyPage())
+	execRec = execRecord{}
+	execFail = false
+	s.m.Lock()
+	s.openExternally(link, mt)
+	s.m.Unlock()
+	verifrt.Settle()
+
+	want := []string{}
+	hasURL := false
+	for _, a := range configured[1:] {
+		switch a {
+		case "%url":
+			a = link
+			hasURL = true
+		case "%mimetype":
+			a = mt.Essence
+		}
+		want = append(want, a)
+	}
+	var got []string
+	ran := false
+	stdin := ""
+	if symbolic {
+		ran = execRec.called && execRec.name == configured[0]
+		got = execRec.args
+		if execRec.called && execRec.cmd.Stdin != nil {
+			b, _ := io.ReadAll(execRec.cmd.Stdin)
+			stdin = string(b)
+		}
+	} else {
+		waitNotMode(s, opening)
+		for i := 0; i < 300 && !ran; i++ {
+			if _, err := os.Stat(configured[0] + ".out"); err == nil {
+				ran = true
+			} else {
+				time.Sleep(time.Millisecond)
+			}
+		}
+		if ran {
+			got, stdin = readDump(configured[0])
+		} else {
+			os.RemoveAll(filepath.Dir(configured[0]))
+		}
+	}
+	same := ran && len(got) == len(want)
+	for i := 0; same && i < len(want); i++ {
+		same = got[i] == want[i]
+	}
+	verifrt.Assert(same, "configured-program-runs-with-the-configured-arguments")
+	if ran && !hasURL {
+		verifrt.Assert(stdin == link, "link-on-stdin-when-no-url-placeholder")
+	}
 	verifrt.Reach("end")
 }
